@@ -143,6 +143,7 @@ def build_shards(ctx, shards):
         if f.startswith("libcds_") and os.path.join(d, f) != mylib:
             try: os.remove(os.path.join(d, f))
             except OSError: pass
+    ctx.c13_lib = mylib; ctx.c13_dir = d
     exes = {}
     def one(s):
         return s, vcheck.cxx_build([HARNESS, mylib], os.path.join(d, "shard%d" % s), hook=True, extra=("-DC13_SHARD=%d" % s,), link_cds=False, timeout=1500)
@@ -165,7 +166,7 @@ def shard_variants(exe):
 def run_shard(ctx, exe, cases, tag):
     cf = os.path.join(ctx.work, tag + ".txt")
     conc_check.write_cases(cf, cases)
-    rc, out = vcheck.sh([exe, cf], timeout=1500)
+    rc, out = vcheck.sh([exe, cf], timeout=900 if ctx.thorough() else 300)
     return rc, conc_check.parse_logs(out), out
 
 
@@ -226,6 +227,18 @@ def analyse_case(c, log):
             optext, restext = sp.split(" = ")
             hist[p["idx"]][2] = optext
             hist.append(["res", tid, restext])
+    # non-trivial: two operations overlap in real time and at least one operation modified the container
+    open_ops = 0; overlap = False
+    for h in hist:
+        if h is None:
+            continue
+        if h[0] == "inv":
+            overlap = overlap or open_ops > 0
+            open_ops += 1
+        else:
+            open_ops -= 1
+    modified = any(h is not None and h[0] == "res" and (h[2] == "true" and hist[i2][2].split()[0] in ("insert", "erase") or h[2] == "pair true true")
+                   for h in hist for i2 in [max(i for i, g in enumerate(hist[:hist.index(h)]) if g is not None and g[0] == "inv" and g[1] == h[1])] if h is not None and h[0] == "res")
     pending = len(pend)
     for p in pend.values():     # only when the step limit was hit
         hist[p["idx"]] = None
@@ -256,7 +269,7 @@ def analyse_case(c, log):
             else:
                 lines.append("inv %d contains %d" % (obs, k))
                 lines.append("res %d %s" % (obs, "true" if k in keys else "false"))
-    return {"lines": lines, "problems": problems, "ops": opcount, "finished": finished, "pending": pending, "keys": keys}
+    return {"lines": lines, "problems": problems, "ops": opcount, "finished": finished, "pending": pending, "keys": keys, "nontrivial": overlap and modified}
 
 
 def observable(ctx, exes, variants, lin, cases_by_shard, tag, stats, report=True):
@@ -287,7 +300,7 @@ def observable_logs(ctx, variants, lin, cs, logs, rc, raw, tag, stats, report=Tr
                 an[i]["verdict"] = v
         for c, a in zip(cs, an):
             vid = c["cfg"][0]
-            st = stats.setdefault(vid, {"name": variants.get(vid, "?"), "cases": 0, "ops": collections.Counter(), "verdicts": collections.Counter(), "overrun": 0, "nonempty_final": 0, "histories": set()})
+            st = stats.setdefault(vid, {"name": variants.get(vid, "?"), "cases": 0, "ops": collections.Counter(), "verdicts": collections.Counter(), "overrun": 0, "nonempty_final": 0, "histories": set(), "nontrivial": set()})
             st["cases"] += 1
             if a is None:
                 nbad += 1
@@ -297,6 +310,8 @@ def observable_logs(ctx, variants, lin, cs, logs, rc, raw, tag, stats, report=Tr
                 continue
             st["ops"].update(a["ops"]); st["verdicts"][a["verdict"]] += 1
             st["histories"].add(hash(tuple(a["lines"])))
+            if a["nontrivial"]:
+                st["nontrivial"].add(hash(tuple(a["lines"])))
             if a["keys"]:
                 st["nonempty_final"] += 1
             what = None
@@ -415,6 +430,40 @@ def run_step(ctx, exes, variants, lin, stats, n, corpus):
             "traces_validated_against_impl": len(cases) - diverged}
 
 
+# --------------------------------------------------------------------------------------------------
+# cross-check with C01 on the real code: a hazard pointer copied downward by MichaelList::search is missed by a
+# concurrent cds::gc::HP::scan (harness/C13/hp_copy.cpp)
+HP_COPY_SIG = "hp-guard-copy-downward-michael-search"
+
+
+def run_hp_copy(ctx):
+    exe = vcheck.cxx_build([os.path.join(vcheck.VERIF, "harness", "C13", "hp_copy.cpp"), ctx.c13_lib], os.path.join(ctx.c13_dir, "hp_copy"), hook=True, link_cds=False, timeout=900)
+    cases = []
+    f = os.path.join(vcheck.VERIF, "corpus", "C13", "hp_copy_down.json")
+    if os.path.exists(f):
+        c = json.load(open(f)); cases.append({k: c[k] for k in ("id", "cfg", "threads", "sched")})
+    # the same scenario with the switch points moved around (robust against small changes of the step counts)
+    for pre in (9, 10, 11):
+        for n in range(60, 78):
+            cases.append({"id": "hpc_%d_%d" % (pre, n), "cfg": [0], "threads": [[[9, 2]], [[4, 1], [20, 11]]],
+                          "sched": [0] * pre + [1] * n + [0] * 6 + [1] * 60 + [0] * 80})
+    rc, logs, raw = run_shard(ctx, exe, cases, "hp_copy")
+    hits = 0
+    for c in cases:
+        lg = logs.get(c["id"])
+        if not lg:
+            continue
+        for x in lg["extra"]:
+            t = x.split()
+            if t[:1] == ["mon"] and "uaf" in t and int(t[t.index("uaf") + 1]) > 0:
+                hits += 1
+                ctx.violation("cds::gc::HP::scan misses the hazard pointer that MichaelList<HP>::search copies from guard slot 1 to slot 0 "
+                              "(GuardArray::copy downward while a scan is in progress): a node is disposed while the searching thread still dereferences it",
+                              {"case": dict(c, kind="hp_copy"), "impl_log": lg["lines"], "monitor": lg["extra"]}, signature=HP_COPY_SIG)
+                break
+    return {"hp_copy_cases": len(cases), "hp_copy_use_after_dispose": hits}
+
+
 def run(ctx):
     exes = build_shards(ctx, SHARDS)
     variants = {}; shard_of = {}
@@ -429,6 +478,14 @@ def run(ctx):
     if ctx.replay:
         r = json.load(open(ctx.replay))
         c = r["case"]
+        if c.get("kind") == "hp_copy":
+            exe = vcheck.cxx_build([os.path.join(vcheck.VERIF, "harness", "C13", "hp_copy.cpp"), ctx.c13_lib], os.path.join(ctx.c13_dir, "hp_copy"), hook=True, link_cds=False, timeout=900)
+            rc, logs, raw = run_shard(ctx, exe, [{k: c[k] for k in ("id", "cfg", "threads", "sched")}], "replay_hp")
+            lg = logs.get(c["id"], {"extra": [], "lines": []})
+            if any("uaf" in x.split() and int(x.split()[x.split().index("uaf") + 1]) > 0 for x in lg["extra"] if x.startswith("mon")):
+                ctx.violation("cds::gc::HP::scan misses the hazard pointer that MichaelList<HP>::search copies from guard slot 1 to slot 0", {"case": c, "impl_log": lg["lines"], "monitor": lg["extra"]}, signature=HP_COPY_SIG)
+            ctx.coverage.update({"obligations": 1, "discharged": 1, "checker_cmd": "replay", "evaluations": 1, "distinct_nontrivial": 0, "rule": "replay of one case", "samples": [c]})
+            return ctx.finish(vcheck.STD_TRUSTED)
         vid = c["cfg"][0]
         observable(ctx, exes, variants, lin, {shard_of[vid]: [c]}, "replay", stats)
         ctx.coverage.update({"obligations": 1, "discharged": 1, "checker_cmd": "replay", "evaluations": 1, "distinct_nontrivial": 0, "rule": "replay of one case", "samples": [c]})
@@ -443,7 +500,7 @@ def run(ctx):
         ctx.log("coq: %d/%d obligations" % (len(res.discharged), len(res.obligations)))
 
     # ---- (A) observable correspondence, every variant ----
-    per_variant = 150 if ctx.thorough() else 40
+    per_variant = 400 if ctx.thorough() else 120
     by_shard = collections.defaultdict(list)
     corpus = []
     cdir = os.path.join(vcheck.VERIF, "corpus", "C13")
@@ -451,6 +508,8 @@ def run(ctx):
         if f.endswith(".json"):
             c = json.load(open(os.path.join(cdir, f)))
             c = c.get("case", c)
+            if c.get("kind") == "hp_copy":
+                continue
             if c["cfg"][0] in shard_of:
                 corpus.append(c); by_shard[shard_of[c["cfg"][0]]].append(c)
     for vid in sorted(variants):
@@ -459,7 +518,7 @@ def run(ctx):
     ctx.log("observable: %d variants, %d cases, %d bad" % (len(variants), sum(s["cases"] for s in stats.values()), nbad))
 
     # ---- (B) step correspondence for intrusive MichaelList<HP> ----
-    stepinfo = run_step(ctx, exes, variants, lin, stats, 3000 if ctx.thorough() else 800, corpus)
+    stepinfo = run_step(ctx, exes, variants, lin, stats, 6000 if ctx.thorough() else 1500, corpus)
     ctx.log("step: %(step_cases)d cases, %(step_diverged)d diverged, %(impl_steps_compared)d accesses compared, %(distinct_event_logs_with_failed_cas)d distinct logs with a failed CAS" % stepinfo)
 
     if res is not None and not res.ok:
@@ -472,16 +531,20 @@ def run(ctx):
     ctx.coverage.setdefault("checker_cmd", "n/a")
     ctx.coverage.update({
         "evaluations": sum(s["cases"] for s in stats.values()),
-        "distinct_nontrivial": sum(len(s["histories"]) for s in stats.values()),
-        "rule": "program x schedule pairs (2-3 threads, 1-4 operations each over 1-4 keys; uniform, bursty, run-then-switch and fine-grained schedules from one splitmix64 stream per variant); distinct = distinct invoke/response histories per variant",
+        "distinct_nontrivial": sum(len(s["nontrivial"]) for s in stats.values()),
+        "distinct_histories": sum(len(s["histories"]) for s in stats.values()),
+        "rule": "program x schedule pairs (2-3 threads, 1-4 operations each over 1-4 keys; uniform, bursty, run-then-switch and fine-grained schedules from one splitmix64 stream per variant); distinct = distinct invoke/response histories per variant; non-trivial = at least two operations overlap in real time and at least one operation modified the container",
         "variants": len(variants), "corpus_cases": len(corpus),
-        "per_variant": {str(v): {"name": s["name"], "cases": s["cases"], "distinct_histories": len(s["histories"]), "lincheck": dict(s["verdicts"]), "overrun": s["overrun"], "nonempty_final": s["nonempty_final"], "ops": dict(s["ops"])} for v, s in sorted(stats.items())},
+        "per_variant": {str(v): {"name": s["name"], "cases": s["cases"], "distinct_histories": len(s["histories"]), "distinct_nontrivial": len(s["nontrivial"]), "lincheck": dict(s["verdicts"]), "overrun": s["overrun"], "nonempty_final": s["nonempty_final"], "ops": dict(s["ops"])} for v, s in sorted(stats.items())},
         "op_result_histogram": dict(tot_ops),
         "histories_decided_by_verified_lincheck": sum(sum(s["verdicts"].values()) for s in stats.values()),
         "samples": [by_shard[shard_of[min(variants)]][0]] if variants else [],
         "modelled": "cds::intrusive::MichaelList<cds::gc::HP> (search with helping, link_node, unlink_node, insert_at, update_at, erase_at, unlink_at, extract_at, find_at, get_at, HP guard traffic)",
     })
     ctx.coverage.update(stepinfo)
+    hpinfo = run_hp_copy(ctx)
+    ctx.log("hp guard-copy scenario: %(hp_copy_cases)d schedules, %(hp_copy_use_after_dispose)d with a use after dispose" % hpinfo)
+    ctx.coverage.update(hpinfo)
     return ctx.finish(vcheck.STD_TRUSTED + ["hook layer: khizmax_libcds_verif::atomic<T>, baton scheduler, event log (hooks/include)", "ocaml/lincheck_main.ml (text parser around the verified lincheck)", "harness/C13 adapters: translation of each API call into the spec vocabulary (`sp` records)"],
                       ["sequential consistency: memory_order arguments are not modelled", "compare_exchange_weak never fails spuriously under the hook",
                        "observable correspondence is sampling (every history sampled is decided exactly by the verified lincheck)"])
